@@ -289,3 +289,38 @@ fn c05_sequence_length_field() {
     }
     std::mem::forget(dst);
 }
+
+// thorough: more lengths
+macro_rules! seq_harness {
+    ($name:ident, $n:expr) => {
+        #[kani::proof]
+        #[kani::unwind(18)]
+        fn $name() {
+            sequence_case::<$n>();
+        }
+    };
+}
+// @verif prop=C05 id=O5.3/1 tier=thorough harness=c05_sequence_roundtrip_1 unwind=18 bound="1 base, all byte values" fns="write_sequence,read_sequence"
+seq_harness!(c05_sequence_roundtrip_1, 1);
+// @verif prop=C05 id=O5.3/2 tier=thorough harness=c05_sequence_roundtrip_2 unwind=18 bound="2 bases, all byte values" fns="write_sequence,read_sequence"
+seq_harness!(c05_sequence_roundtrip_2, 2);
+// @verif prop=C05 id=O5.3/5 tier=thorough harness=c05_sequence_roundtrip_5 unwind=18 bound="5 bases, all byte values" fns="write_sequence,read_sequence"
+seq_harness!(c05_sequence_roundtrip_5, 5);
+// @verif prop=C05 id=O5.3/6 tier=thorough harness=c05_sequence_roundtrip_6 unwind=18 bound="6 bases, all byte values" fns="write_sequence,read_sequence"
+seq_harness!(c05_sequence_roundtrip_6, 6);
+
+// @verif prop=C05 id=O5.4/1 tier=thorough unwind=6 stubs="alloc::fmt::format->empty String" bound="1 quality byte, all values" fns="write_quality_scores,read_quality_scores"
+#[kani::proof]
+#[kani::unwind(6)]
+#[kani::stub(std::fmt::format, stub_fmt_format)]
+fn c05_quality_scores_roundtrip_1() {
+    quality_case::<1>();
+}
+
+// @verif prop=C05 id=O5.4/4 tier=thorough unwind=7 stubs="alloc::fmt::format->empty String" bound="4 quality bytes, all values" fns="write_quality_scores,read_quality_scores"
+#[kani::proof]
+#[kani::unwind(7)]
+#[kani::stub(std::fmt::format, stub_fmt_format)]
+fn c05_quality_scores_roundtrip_4() {
+    quality_case::<4>();
+}
